@@ -36,9 +36,9 @@ def plan(ctx):
     from sqv.harness import txt
     for i, prog in enumerate(txt.PROGRAMS):
         obs.append(Obligation(f"txt.error_line.p{i}", "xh", "txt", "error_line", param={"program": i}, timeout=T * 6,
-                              bounds="one of 18 concrete programs (strings and comments containing brackets/quotes/#, nested multi-line literals, %..% names); "
+                              bounds="one of 20 concrete programs (strings and comments containing brackets/quotes/#, nested multi-line literals, %..% names); "
                                      "stray text, separator variant, truncation, earlier list_names() and parse cache symbolic (finite domain chosen by the solver); every token boundary then damaged natively on the real lexer+parser within the path",
-                              desc=f"program {i}: stray text from 32 samples (brackets, separators, operators, zero / empty literals, reserved words ...) inserted at (or text truncated at) every token boundary, under LF / CRLF / ; variants: message names the reported token and 1 + number of line feeds before it"))
+                              desc=f"program {i}: stray text from 37 samples (brackets, separators, operators, zero / empty literals, reserved words ...) inserted at (or text truncated at) every token boundary, under LF / CRLF / ; variants: message names the reported token and 1 + number of line feeds before it"))
     obs += lxc_obligations(ctx, ['linefeeds'])
     return {
         "precheck": both_prechecks,
